@@ -82,7 +82,9 @@ CATALOGUE = [
     # ---- C10 ----
     ("C10", "c10-drop-rewrite", OPT, "        op.right = update(op.right)\n    elif isinstance(op, IRDecider):", "    elif isinstance(op, IRDecider):", 1, "fire", "IRArith.right"),
     ("C10", "c10-key-drop-type", OPT, 'return f"arith:{op.op}:{left_key}:{right_key}:{op.output_type}"', 'return f"arith:{op.op}:{left_key}:{right_key}"', 1, "fire", "IRArith.output_type"),
-    ("C10", "c10-pass-order", CLI, "        ir_operations = ConstantPropagationOptimizer().optimize(ir_operations)\n        # Second: common subexpression elimination\n        ir_operations = CSEOptimizer().optimize(ir_operations)", "        ir_operations = CSEOptimizer().optimize(ir_operations)\n        # Second: common subexpression elimination\n        ir_operations = ConstantPropagationOptimizer().optimize(ir_operations)", 1, "fire", "pass order"),
+    ("C10", "c10-pass-order", CLI, "        constant_propagation = ConstantPropagationOptimizer()\n", "        constant_propagation = CSEOptimizer()\n", 1, "fire", "pass order"),
+    ("C10", "c10-pass-order-swap", CLI, "        constant_propagation = ConstantPropagationOptimizer()\n        ir_operations = constant_propagation.optimize(ir_operations)\n        repoint_signal_refs(lowerer.signal_refs, constant_propagation.replacements)\n        # Second: common subexpression elimination\n        cse = CSEOptimizer()\n        ir_operations = cse.optimize(ir_operations)\n        repoint_signal_refs(lowerer.signal_refs, cse.replacements)\n",
+     "        cse = CSEOptimizer()\n        ir_operations = cse.optimize(ir_operations)\n        repoint_signal_refs(lowerer.signal_refs, cse.replacements)\n        constant_propagation = ConstantPropagationOptimizer()\n        ir_operations = constant_propagation.optimize(ir_operations)\n        repoint_signal_refs(lowerer.signal_refs, constant_propagation.replacements)\n", 1, "fire", "pass order"),
     ("C10", "c10-benign-helper-rename", OPT, "_map_operand_refs", "_walk_operand_refs", 0, "silent", ""),
     # ---- C11 ----
     ("C11", "c11-no-wrap", CF, "return wrap_int32(left * right)", "return left * right", 1, "fire", "folds '*'"),
